@@ -5,7 +5,8 @@ coherent sharing (objects with one uuid are equal dicts), distinct feature label
 
 * `dir_cases`        relative recording paths under relative audio directories (and absolute ones), the directory
                      spelled as a caller may write it ("audio", "audio/", "./audio", "audio/.", ".", "", an ancestor)
-* `WideGen`          atoms at the edge of their types: very large / very small / negative-zero floats, scores at the
+* `WideGen`          atoms at the edge of their types: very large / very small floats (no negative zero: `-0.0 == 0.0`,
+                     the property does not pin the sign of a zero), scores at the
                      ends of [0, 1], zero durations / sample rates, datetimes with and without time zone and
                      microseconds at the ends of the calendar, times with a time zone, unicode of every plane,
                      control characters, geometries with degenerate shape (a line whose ends share a time, an empty
@@ -78,10 +79,10 @@ WIDE_TEXTS = ["\U0001F987 bat \U0001F9A4", "zero‍width​join", "‮right-to-l
               "line sep para", "nul\x00inside", "\x7f\x1f\x01", "back\\slash \\u0041 \\n", "</script><!--", "퟿￿",
               "{\"json\": [1, null]}", "a" * 3000, " ", "\n", "0.0", "False", "[]", "{}", "NaN", "Infinity", "İı ß ẞ",
               "عربى עברית 中文 日本語 한국어"]
-WIDE_FLOATS = [1e308, 1.7976931348623157e308, 5e-324, 2.2250738585072014e-308, -0.0, 0.1 + 0.2, 1e22, 1e23, 9007199254740993.0,
+WIDE_FLOATS = [1e308, 1.7976931348623157e308, 5e-324, 2.2250738585072014e-308, 0.1 + 0.2, 1e22, 1e23, 9007199254740993.0,
                -1e-300, -1.7976931348623157e308, 123456789.12345679, 1 / 3, 2.0 ** -1074, 0.30000000000000004, 1e-7, 1e16, 100.0,
                1.0, 0.0, 2.0, -1.0, 1e21, 1e-5, 12345678901234567890.0]
-WIDE_UNIT = [0.0, 1.0, -0.0, 5e-324, 0.9999999999999999, 1e-300, 2.0 ** -53, 0.5, 0.1, 1 / 3, 0.7000000000000001]
+WIDE_UNIT = [0.0, 1.0, 5e-324, 0.9999999999999999, 1e-300, 2.0 ** -53, 0.5, 0.1, 1 / 3, 0.7000000000000001]
 ZONES = [None, None, datetime.timezone.utc, datetime.timezone(datetime.timedelta(hours=5, minutes=45)),
          datetime.timezone(datetime.timedelta(hours=-12)), datetime.timezone(datetime.timedelta(hours=14)),
          datetime.timezone(datetime.timedelta(hours=-3, minutes=-30)), datetime.timezone(datetime.timedelta(0), "Z")]
@@ -159,6 +160,34 @@ class WideGen(aoefgen.Gen):
             return r.choice(WIDE_GEOMS)
         return super().geometry(i)
 
+    @staticmethod
+    def lookalike(s, r):
+        """another string that a careless key function would identify with `s`"""
+        import unicodedata
+        cands = [s.swapcase(), s.upper(), s + " ", " " + s, unicodedata.normalize("NFD", s), unicodedata.normalize("NFC", s),
+                 s + "\u200b", s.replace(" ", "_"), s.strip()]
+        cands = [c for c in cands if c != s]
+        return r.choice(cands) if cands else s + "'"
+
+    def tag(self):
+        r = self.rng
+        t = super().tag()
+        z = r.random()
+        if z < 0.2:
+            t["key"] = self.lookalike(t["key"], r)        # same value, look-alike label
+        elif z < 0.4:
+            t["value"] = self.lookalike(t["value"], r)    # same label, look-alike value
+        return t
+
+    def features(self, hi=3):
+        r = self.rng
+        fs = super().features(hi)
+        if fs and r.random() < 0.5:
+            k = self.lookalike(fs[0]["key"], r)
+            if all(f["key"] != k for f in fs):
+                fs.insert(r.randint(0, len(fs)), {"key": k, "value": self.fl()})
+        return fs
+
     def user(self):
         r = self.rng
         u = super().user()
@@ -171,7 +200,7 @@ class WideGen(aoefgen.Gen):
     def recording(self, i=0):
         r = self.rng
         rec = super().recording(i)
-        rec["duration"] = num(r.choice([0.0, 5e-324, 1e308, 1.0, 0.1 + 0.2, 86400.0, -0.0]))
+        rec["duration"] = num(r.choice([0.0, 5e-324, 1e308, 1.0, 0.1 + 0.2, 86400.0]))
         rec["channels"] = num(r.choice([0, 1, 2, 64, 2 ** 31]))
         rec["samplerate"] = num(r.choice([0, 1, 44100, 2 ** 31 - 1, 2 ** 40, 384000]))
         rec["time_expansion"] = num(r.choice([1.0, 0.0, 1.0000000000000002, 0.9999999999999999, 1e-300, 10.0, 1e300]))
@@ -182,15 +211,15 @@ class WideGen(aoefgen.Gen):
                                     datetime.time(12, 0, tzinfo=datetime.timezone.utc),
                                     datetime.time(6, 30, 0, 250000, tzinfo=datetime.timezone(datetime.timedelta(hours=2)))]).isoformat()
         if rec.get("latitude") is not None:
-            rec["latitude"] = num(r.choice([0.0, -0.0, 90.0, -90.0, 5e-324, 1e-7]))
+            rec["latitude"] = num(r.choice([0.0, 90.0, -90.0, 5e-324, 1e-7]))
         if rec.get("longitude") is not None:
-            rec["longitude"] = num(r.choice([0.0, -0.0, 180.0, -180.0, 179.99999999999997]))
+            rec["longitude"] = num(r.choice([0.0, 180.0, -180.0, 179.99999999999997]))
         return rec
 
     def clip(self):
         r = self.rng
         c = super().clip()
-        s, e = r.choice([(0.0, 0.0), (0.0, 5e-324), (-0.0, 0.0), (1e-300, 1e300), (0.1 + 0.2, 0.30000000000000004),
+        s, e = r.choice([(0.0, 0.0), (0.0, 5e-324), (1e-300, 1e300), (0.1 + 0.2, 0.30000000000000004),
                          (2.0, 2.0000000000000004), (0.0, 1.7976931348623157e308), (1.0, 2.0)])
         c["start_time"], c["end_time"] = num(s), num(e)
         return c
@@ -234,6 +263,46 @@ class RichGen(aoefgen.Gen):
                                             "tasks", "annotation_tags", "evaluation_tags", "metrics") if k in v):
                 return cj
         return cj
+
+
+LABELS = ["\U0001F987", "clé espèce", "ключ", "键", "a\u0301", "\u00e1", "tab\tkey", "new\nline", " lead", "trail ", "dc:type",
+          "http://rs.tdwg.org/dwc/terms/scientificName", "quote\"d", "back\\slash", "\u200bzero", "k" * 200, "NULL", "0", "true",
+          "\ufeffbom", "Key", "key", "KEY", "\u212a"]      # the last four differ only by case / compatibility
+
+
+def widen_strings(cj, rng):
+    """every *short* string slot — tag keys and values, feature labels, user names, hashes, licences, versions, names,
+    evaluation tasks — gets unicode of every kind.  One table old -> new, injective, applied everywhere: equal strings
+    stay equal (coherent sharing), distinct ones stay distinct (distinct feature labels, distinct tags)."""
+    table, used = {}, set()
+
+    def m(s):
+        if not isinstance(s, str):
+            return s
+        if s not in table:
+            cand = [x for x in LABELS + WIDE_TEXTS if x not in used]
+            table[s] = rng.choice(cand) if cand and rng.random() < 0.8 else s + "\u2063" * (len(used) + 1)
+            used.add(table[s])
+        return table[s]
+
+    def walk(x, key=None):
+        if isinstance(x, dict):
+            y = {k: walk(v, k) for k, v in x.items()}
+            if set(y) == {"key", "value"}:
+                y["key"] = m(y["key"])
+                if key not in ("features", "metrics"):
+                    y["value"] = m(y["value"])
+            for f in ("username", "hash", "license", "version", "evaluation_task"):
+                if isinstance(y.get(f), str):
+                    y[f] = m(y[f])
+            return y
+        if isinstance(x, list):
+            return [walk(v, key) for v in x]
+        return x
+    v = walk(cj["value"], "~collection")
+    if isinstance(v.get("name"), str):
+        v["name"] = m(v["name"])
+    return {"type": cj["type"], "value": v}
 
 
 # ----------------------------------------------------------------------------- equal content, different identity
@@ -408,7 +477,6 @@ def slot_table():
                 vals.append(("falsy", ""))
             elif inner is float:
                 vals.append(("falsy", num(0.0)))
-                vals.append(("negzero", num(-0.0)))
             elif inner is int:
                 vals.append(("falsy", num(0)))
             elif inner is bool:
